@@ -359,6 +359,12 @@ func (e *Exec) Key() string {
 	for _, s := range region.VerifSectors(e.R) {
 		b = append(b, byte(s>>16), byte(s>>8), byte(s))
 	}
+	b = append(b, 0xff, 0xff, 0xfe)
+	// entries present but marked free: dropped sectors behave like absent ones in today's mca.go,
+	// but the key keeps them so that the abstraction does not depend on that
+	for _, s := range region.VerifFreeKeys(e.R) {
+		b = append(b, byte(s>>16), byte(s>>8), byte(s))
+	}
 	b = append(b, 0xff, 0xff, 0xff)
 	n := e.Dev.Size()
 	b = append(b, byte(n>>32), byte(n>>24), byte(n>>16), byte(n>>8), byte(n))
